@@ -323,7 +323,7 @@ class PyteTerm:
         # prior output: print the scrollback rows then the screen rows, scrolling as a terminal would
         if scrollback:
             for i, row in enumerate(scrollback):
-                self._paint_row(h - 1, row)
+                self._paint_row(0, row)                      # on the top row, then scroll it off
                 self.stream.feed("\x1b[%d;1H\n" % h)
         for i, row in enumerate((screen or [])[:h]):
             self._paint_row(i, row)
